@@ -161,11 +161,7 @@ pub fn check(c: &Case, obs: &mut Obs) -> Result<(), Fail> {
     };
     let n = built.size();
     let vals = built.values();
-    let svg = catch(|| {
-        let mut b = SvgBuilder::default();
-        c.cfg.apply(&mut b);
-        b.to_str(&built.qr)
-    })
+    let svg = catch(|| c.cfg.svg_string(&built.qr))
     .map_err(|p| Fail { sig: panic_sig(&p), msg: format!("SvgBuilder panicked: {} ({})", p, c.cfg.to_json()) })?;
     check_svg(&svg, &vals, n, &c.cfg, obs)?;
     let cfg = &c.cfg;
@@ -178,6 +174,9 @@ pub fn check(c: &Case, obs: &mut Obs) -> Result<(), Fail> {
         obs.label(&format!("shape:{}", SHAPE_NAMES[*si]));
     }
     obs.label(&format!("margin:{}", match cfg.margin { None => "default".to_string(), Some(0) => "0".into(), Some(m) if m <= 4 => "1-4".into(), Some(_) => ">4".into() }));
+    if cfg.warm.is_some() {
+        obs.label("renderer_instance_reused");
+    }
     if cfg.image.is_some() {
         obs.label(if img_special { "image:xml_special" } else { "image:plain" });
     }
@@ -207,8 +206,9 @@ pub fn cfg_strategy() -> BoxedStrategy<SvgCfg> {
         prop_oneof![1 => Just(None), 2 => any_color().prop_map(Some)],
         prop_oneof![2 => Just(None), 3 => image_string().prop_map(Some)],
         prop_oneof![2 => Just(None), 1 => (0usize..3).prop_map(Some)],
+        warm_strategy(),
     )
-        .prop_map(|(margin, layers, module_color, background, image, bgs)| SvgCfg { margin, layers, module_color, background, image, image_bg_shape: bgs, ..SvgCfg::default() })
+        .prop_map(|(margin, layers, module_color, background, image, bgs, warm)| SvgCfg { margin, layers, module_color, background, image, image_bg_shape: bgs, warm, ..SvgCfg::default() })
         .boxed()
 }
 
